@@ -13,6 +13,8 @@ CONSTANTS
   RenderClasses <- C3Render
   Mro <- MCMro
   StatusOf <- MCStatus
+  OwnVary <- MCOwnVary
+  MaxReqs = 1
   WrongDesign <- MCWrong
   MaxFaults = 1
 INVARIANT TypeOK
